@@ -202,7 +202,17 @@ func runC09(tier string, seed uint64, rep *Report) {
 		}
 		for i := 0; i < natoms; i++ {
 			inv := clock.Add(1)
-			o := w.EvalText(context.Background(), fmt.Sprintf("@a%d", i))
+			// under a watchdog: an atom left locked by the last operation that touched it blocks this read for ever
+			och := make(chan Outcome, 1)
+			go func(i int) { och <- w.EvalText(context.Background(), fmt.Sprintf("@a%d", i)) }(i)
+			var o Outcome
+			select {
+			case o = <-och:
+			case <-time.After(10 * time.Second):
+				idx := rep.Add("N 0 0", "lin", "round "+strconv.Itoa(round), true, "round:hung")
+				rep.Violate(idx, fmt.Sprintf("after all threads had finished, @a%d did not return within 10s: the atom was left locked", i), listing())
+				emergencyFlush(rep)
+			}
 			resp := clock.Add(1)
 			n, _ := o.Val.(int)
 			recs = append(recs, rec{op: atomOp{opc: 0, i: i, src: fmt.Sprintf("@a%d (final)", i)}, rv: n, inv: inv - base, resp: resp - base})
@@ -266,7 +276,10 @@ func c09NestedPrint(rep *Report, tier string) {
 				}
 			}
 		}
-		if o := w.EvalText(context.Background(), "@b"); o.Val != 25 {
+		if o, ok := w.EvalTextWithin("@b", 10*time.Second); !ok {
+			rep.Violate(idx, "after the scenario the inner atom cannot be read any more (left locked)", desc)
+			emergencyFlush(rep)
+		} else if o.Val != 25 {
 			rep.Violate(idx, fmt.Sprintf("after 25 increments the inner atom holds %s", Show(o.Val)), desc)
 		}
 	}
